@@ -4,7 +4,6 @@
 package keyx
 
 import (
-	"sync"
 	"bytes"
 	"crypto/hmac"
 	"crypto/sha256"
@@ -14,6 +13,7 @@ import (
 	"fmt"
 	"math/big"
 	"math/rand"
+	"sync"
 
 	crypto "github.com/onflow/crypto"
 	"github.com/onflow/crypto/hash"
